@@ -227,7 +227,7 @@ def units(tier):
     # every field of the destination equals the guest decoding / encoding of the source field, the store assigns only the guest image)
     from . import C08
     sinsts = []
-    for it in (C08.load_inst('VOuter', tier), C08.store_inst('VOuter', tier)):
+    for it in (C08.load_inst('VOuter', tier), C08.store_inst('VOuter', tier), C08.unverified_inst('VOuter', tier)):
         it.name = it.name.replace('c08_', 'c07_struct_')
         it.prop = PROP
         sinsts.append(it)
